@@ -276,6 +276,20 @@ theorem T18_choi_trace_of_tp (C : Matrix (o × i) (o × i) R) (h : ptraceFst C =
     trace C = Fintype.card i := by
   rw [← T18_ptraceFst_trace, h, trace_one]
 
+/-- the vectorised Kraus operators as the columns of one matrix. -/
+def vecRow (K : t → Matrix o i R) : Matrix (o × i) t R := fun p s => K s p.1 p.2
+def vecCol (K : t → Matrix o i R) : Matrix (i × o) t R := fun p s => K s p.2 p.1
+
+/-- the Choi matrix of a Kraus family is a Gram matrix `M M†` (`M[(a,j), s] = K_s[a,j]`). -/
+theorem T18_choi_row_gram (K : t → Matrix o i R) : choiRow K = vecRow K * (vecRow K)ᴴ := by
+  ext p q
+  simp [choiRow, vecRow, mul_apply, conjTranspose_apply]
+
+theorem T18_choi_column_gram (K : t → Matrix o i R) :
+    choiCol K = vecCol K * (vecCol K)ᴴ := by
+  ext p q
+  simp [choiCol, vecCol, mul_apply, conjTranspose_apply]
+
 variable [PartialOrder R] [StarOrderedRing R] [AddLeftMono R]
 
 /-- the partial trace of a positive semidefinite matrix is positive semidefinite: the matrix
@@ -295,6 +309,21 @@ theorem T18_ptraceSnd_psd (W : Matrix (i × o) (i × o) R) (hW : W.PosSemidef) :
     simp [ptraceSnd, Matrix.sum_apply]
   rw [this]
   exact posSemidef_sum _ fun x _ => hW.submatrix _
+
+/-- every Kraus family gives a positive semidefinite Choi matrix (complete positivity), in both
+orders. -/
+theorem T18_choi_psd (K : t → Matrix o i R) : (choiRow K).PosSemidef ∧ (choiCol K).PosSemidef := by
+  rw [T18_choi_row_gram, T18_choi_column_gram]
+  exact ⟨posSemidef_self_mul_conjTranspose _, posSemidef_self_mul_conjTranspose _⟩
+
+/-- `random_quantum_channel(measure=None | "haar")`: the Choi matrix `vec(U) vec(U)†` of a unitary
+(`U†U = 1` suffices) is a CPTP map, in both orders. -/
+theorem T18_unitary_channel_cptp (U : Matrix o i R) (hU : Uᴴ * U = 1) :
+    ((choiRow fun _ : Unit => U).PosSemidef ∧ ptraceFst (choiRow fun _ : Unit => U) = 1)
+      ∧ ((choiCol fun _ : Unit => U).PosSemidef ∧ ptraceSnd (choiCol fun _ : Unit => U) = 1) := by
+  have hsum : ∑ _s : Unit, Uᴴ * U = 1 := by simp [hU]
+  exact ⟨⟨(T18_choi_psd _).1, (T18_choi_tp_iff fun _ : Unit => U).1.mpr hsum⟩,
+         ⟨(T18_choi_psd _).2, (T18_choi_tp_iff fun _ : Unit => U).2.mpr hsum⟩⟩
 
 end choi
 
@@ -466,5 +495,17 @@ normalising trace `4 ≠ 0`. -/
 example : trace ((1 + (1 : Matrix (Fin 1) (Fin 1) ℂ)) * ((1 : Matrix (Fin 1) (Fin 1) ℂ) * 1ᴴ)
     * (1 + (1 : Matrix (Fin 1) (Fin 1) ℂ)ᴴ)) ≠ 0 := by
   simp [trace, Fin.sum_univ_one, mul_apply]
+
+/-- non-vacuity of `T18_bcsz_S_from_eigh`: `V = 1`, eigenvalues `(4, 9)`, `s = (1/2, 1/3)` over ℚ. -/
+example : (1 : Matrix (Fin 2) (Fin 2) ℚ)ᴴ * 1 = 1 ∧ (1 : Matrix (Fin 2) (Fin 2) ℚ) * 1ᴴ = 1
+    ∧ (∀ k : Fin 2, (![1 / 2, 1 / 3] : Fin 2 → ℚ) k * (![4, 9] : Fin 2 → ℚ) k * (![1 / 2, 1 / 3] : Fin 2 → ℚ) k = 1)
+    ∧ ∀ k : Fin 2, star ((![1 / 2, 1 / 3] : Fin 2 → ℚ) k) = (![1 / 2, 1 / 3] : Fin 2 → ℚ) k := by
+  refine ⟨by simp, by simp, ?_, fun k => rfl⟩
+  intro k; fin_cases k <;> norm_num
+
+/-- non-vacuity of `T18_unitary_channel_cptp` and `T18_choi_tp_iff`: a genuinely complex unitary. -/
+example : (!![0, Complex.I; Complex.I, 0] : Matrix (Fin 2) (Fin 2) ℂ)ᴴ * !![0, Complex.I; Complex.I, 0] = 1 := by
+  ext a b
+  fin_cases a <;> fin_cases b <;> simp [Matrix.mul_apply, Fin.sum_univ_two, conjTranspose_apply]
 
 end QV.Props.C18d
